@@ -328,6 +328,31 @@ def shard(ctx):
             run_value(ctx, spec, m.classes['Hold'](
                 h_id=1, h_sv=sv(), h_l=[sv()], h_d={'k': sv()}),
                 ['cls', 'Hold'])
+    # a class that is written as a sequence (its sweetener replaces the
+    # mapping by a sequence node)
+    if ctx.shard == 1:
+        vec = {'name': 'Vec', 'kind': 'plain', 'sweeten': [['attrs_to_seq']],
+               'params': [{'name': 'vx', 'type': 'int'},
+                          {'name': 'vy', 'type': 'str'}]}
+        holdv = {'name': 'HoldV', 'kind': 'plain', 'params': [
+            {'name': 'hv_id', 'type': 'int'},
+            {'name': 'hv_v', 'type': ['cls', 'Vec']},
+            {'name': 'hv_l', 'type': ['list', ['cls', 'Vec']]}]}
+        spec = {'classes': [vec, holdv], 'doc_type': ['cls', 'HoldV']}
+        try:
+            m = H.model_of(spec)
+            spec = H.clean_spec(spec)
+            Vec, HoldV = m.classes['Vec'], m.classes['HoldV']
+            for i in range(20):
+                ctx.count('sequence_sweetened_values')
+                run_value(ctx, spec, Vec(vx=i, vy='a'), ['cls', 'Vec'])
+                run_value(ctx, spec, [Vec(vx=i, vy='b'), Vec(vx=2, vy='')],
+                          ['list', ['cls', 'Vec']])
+                run_value(ctx, spec, HoldV(hv_id=i, hv_v=Vec(vx=1, vy='c'),
+                                           hv_l=[Vec(vx=3, vy='d')]),
+                          ['cls', 'HoldV'])
+        except Exception as e:
+            ctx.note('sequence-sweetened family: %r' % (e,))
     # plain containers incl. OrderedDict
     spec0 = {'classes': [], 'doc_type': 'any'}
     for _ in range(ctx.budget(10000, 130000)):
